@@ -3,6 +3,7 @@ add("C15", "checks/c15_bounds.c", ["default-asan", "dtostre-asan", "default-plai
     "gcc build): SCPI_NumberToStr over every unit-table row and special-number name, SCPI_DoubleToStr/FloatToStr, SCPI_dtostre with "
     "precision 1..15 and all flag combinations, SCPI_ParamCopyText through real dispatch on quoted texts with doubled quotes around the "
     "cut, integer formatters; distinct_nontrivial = distinct untruncated result texts (hash of the text, per function family)",
+    rule_more="application unit table with 6..17-character names; copy_len NULL; numbers of base 16/8/2; flavour optall (every default-off option switched on, including options a change adds)",
     technique="sanitizer monitoring (ASan exact-size heap cells, UBSan) plus post-condition monitor for termination and returned length; guard bytes in the uninstrumented build",
     level_text="exploration by execution: every buffer length 0..40 for a few thousand (quick) / few hundred thousand (thorough) values per function family, in the printf and the built-in-formatter configurations; memory safety is decided by ASan red zones on exact-size allocations, so a write that lands inside another live object would be missed (not possible here: each buffer is its own allocation)",
     level_note="trusted: ASan/UBSan runtimes, the rule 'fits (n<L) => terminated; returned length == characters before the NUL; never more than L bytes touched'; content equality is deliberately left to C07/C16",
